@@ -24,8 +24,12 @@ BUILD = os.path.join(VERIF, 'build')
 EVID = os.path.join(VERIF, 'evidence')
 HQ = os.path.join(BUILD, 'hq')
 
+# DISABLE_KWALLET / DBUS_SESSION_BUS_ADDRESS: the keyring library the Cosmos SDK links (99designs/keyring) opens a D-Bus
+# session bus in two init() functions; without a bus address that auto-launches one dbus-daemon per harness process,
+# which is never reaped.  An address nobody listens on makes both fail silently, as they do on a machine without D-Bus.
 GOENV = dict(os.environ, GOFLAGS='-mod=mod', GOPROXY='off', GOSUMDB='off', GOTOOLCHAIN='local',
-             CGO_ENABLED=os.environ.get('CGO_ENABLED', '1'))
+             CGO_ENABLED=os.environ.get('CGO_ENABLED', '1'), DISABLE_KWALLET='1',
+             DBUS_SESSION_BUS_ADDRESS='unix:path=/nonexistent/verif-no-dbus')
 
 FORBIDDEN = re.compile(
     r'\b(Admitted|admit|Axiom|Axioms|Parameter|Parameters|Conjecture|Conjectures|Hypothesis|Hypotheses|Variables?)\b'
